@@ -6,6 +6,7 @@ import (
 	"encoding/json"
 	"errors"
 	"fmt"
+	"github.com/thushan/olla/internal/adapter/proxy/core"
 	"io"
 	"net/http"
 	"sync"
@@ -76,8 +77,9 @@ func (a *Application) executePassthroughRequest(
 	a.logRequestResult(pr, err)
 
 	if err != nil {
-		// only write error if response hasn't started
-		if w.Header().Get(constants.HeaderContentType) == "" {
+		// only write error if response hasn't started (a backend need not declare a content
+		// type, so the engine's own word on that comes first)
+		if !core.IsResponseStarted(err) && w.Header().Get(constants.HeaderContentType) == "" {
 			a.writeTranslatorError(w, trans, pr, fmt.Errorf("proxy error: %w", err), http.StatusBadGateway)
 		}
 	}
